@@ -420,14 +420,21 @@ def history_probes(rec):
     rec.count("probe.dict-history")
     from hdl21.external_module import ExternalModuleCall
 
-    d = {"w": 1, "k": "a"}
-    c1 = ExternalModuleCall(module=L["Edict"], params=d)
-    d["w"] = 2
-    c2 = ExternalModuleCall(module=L["Edict"], params=d)
-    e1, e2 = exported(c1), exported(c2)
-    if e1.get("w") != 1 or e2.get("w") != 2:
-        rec.violation("param-value-wrong", f"one dict handed to two ExternalModuleCall(...) objects and edited in between: the first instance exports "
-                                           f"w={e1.get('w')!r} (given 1), the second w={e2.get('w')!r} (given 2)", case={"kind": "probe", "what": "dict-history"})
+    import collections
+
+    for mkd in (dict, collections.OrderedDict, lambda **kw: collections.defaultdict(int, **kw), type("MyDict", (dict,), {})):
+        for through in ("constructor", "call"):
+            rec.count("probe.dict-history")
+            d = mkd(w=1, k="a")
+            c1 = ExternalModuleCall(module=L["Edict"], params=d) if through == "constructor" else L["Edict"](d)
+            d["w"] = 2
+            d["extra"] = 5
+            c2 = ExternalModuleCall(module=L["Edict"], params=d) if through == "constructor" else L["Edict"](d)
+            e1, e2 = exported(c1), exported(c2)
+            if e1.get("w") != 1 or e2.get("w") != 2 or "extra" in e1:
+                rec.violation("param-value-wrong", f"one {type(d).__name__} handed to two calls ({through}) and edited in between: the first instance exports "
+                                                   f"w={e1.get('w')!r} (given 1){' and a parameter `extra` it was never given' if 'extra' in e1 else ''}, the second "
+                                                   f"w={e2.get('w')!r} (given 2)", case={"kind": "probe", "what": "dict-history"})
     # (2a) typed constructors given a parameters OBJECT of the other type
     from hdl21.primitives import MosParams, BipolarParams
 
